@@ -103,6 +103,14 @@ end one past what the alphabet contained (120,001 months, year 9999, 63 month-se
 minute of a term, a rounding tie that exists on four days of the whole range, special `time.Time` values, and the
 process time zone.
 
+Round 10 (20 changes, same brief extended by round 9's additions; several agents reported that they could no longer
+find a fault a full sweep would miss and fell back on date-level changes): 12 caught as-is (six of them by machinery
+added in rounds 6–9), 6 after additions — the classical nine-star correspondences pinned in C16, `HH:MM:SS` strings
+for the slot helper, setter isolation for returned value objects, read-only methods with small int arguments in the
+race pass, `time.Time` inputs in named zones whose clock changes at local midnight, Julian Days in the last half
+second of every month and year — one undecidable (a new moon 81 s from local midnight) and one judged out of scope
+(needs a name table shorter than the built-in one, under which the unchanged library cannot name its own records).
+
 ### 10.2 Hand-written overlay mutants (`selftest.py`, results in `selftest.json`)
 
 %d mutants (1–3 per property, listed with their intent in `selftest.py`) are applied through the build
